@@ -29,6 +29,7 @@ type GenOpts struct {
 	Cfgs       []Cfg
 	Yield      bool // add scheduling noise to bodies
 	SeqNoBody  bool // sequential registrations never publish from their body (documented deadlock)
+	ChainPub   bool // registrations of the first type may publish events of the other types from their body
 }
 
 var vals = []string{"a", "b", "c"}
@@ -70,6 +71,12 @@ func (g GenOpts) subOp(rnd *rand.Rand, types []string, depth int) Op {
 	if depth == 0 && rnd.Float64() < g.Body {
 		n := 1 + rnd.IntN(2)
 		for i := 0; i < n; i++ {
+			if g.ChainPub {
+				if o.T == types[0] && len(types) > 1 && !(o.Seq && !o.Async) {
+					o.Body = append(o.Body, Op{Op: "pub", T: types[1+rnd.IntN(len(types)-1)], Val: pick(rnd, vals), Ctx: "bg"})
+				}
+				continue
+			}
 			o.Body = append(o.Body, g.bodyOp(rnd, types, o))
 		}
 	}
